@@ -486,12 +486,22 @@ pub fn gen(seed: u64, count: usize, tier: &str, params: &Params) -> Vec<Value> {
                 let nd = rng.range(1, 3) as usize;
                 let axis = rng.below(nd as u64) as usize;
                 let mut shape: Vec<usize> = (0..nd).map(|_| rng.range(1, 3) as usize).collect();
-                shape[axis] = if rng.chance(1, 12) { rng.range(17, 40) as usize } else { rng.range(1, maxn) as usize };
+                let long = rng.chance(1, 8);
+                shape[axis] = if long { rng.range(17, 64) as usize } else { rng.range(1, maxn) as usize };
+                if long { for (k, d) in shape.iter_mut().enumerate() { if k != axis { *d = (*d).min(2); } } }
                 if nd > 1 && rng.chance(1, 15) { let other = (axis + 1) % nd; shape[other] = 0; }
                 let fancy = rng.chance(2, 3) && shape[axis] <= 9;
                 let lay = random_lay(&mut rng, &shape, fancy);
                 let n: usize = shape.iter().product();
-                let (data, bexp) = random_lane_vals(&mut rng, n, ty, strat);
+                let (mut data, bexp) = random_lane_vals(&mut rng, n, ty, strat);
+                if long && nd == 1 {
+                    // deep recursions of the selection: one dominant run of equal elements, or sorted data under a first / last pivot policy
+                    match rng.below(4) {
+                        0 | 1 => { let v0 = data[0]; let keep = rng.range(2, 5) as usize; for (k, d) in data.iter_mut().enumerate() { if k % (n / keep.min(n).max(1)).max(1) != 0 { *d = v0; } } }
+                        2 => { data.sort(); }
+                        _ => {}
+                    }
+                }
                 let nq = if pair || rng.chance(1, 2) { rng.below(if tier == "thorough" { 12 } else { 5 }) as usize } else { 1 };
                 let mut qs: Vec<Value> = (0..nq).map(|_| random_q(&mut rng, shape[axis])).collect();
                 if nq >= 2 && rng.chance(1, 3) { let d = qs[0].clone(); qs.push(d); }
